@@ -521,6 +521,12 @@ def cached_error_is_a_secop_error(ctx):
         if isinstance(v, ast.Constant) and v.value is None:
             ctx.ok(f'{f.qualname}:stored error is a SECoP error', s, 'None', f)
             continue
+        if isinstance(v, ast.Attribute) and isinstance(v.value, ast.Name) and v.value.id != 'self' and \
+                any(isinstance(x, ast.Assign) and any(isinstance(tg, ast.Name) and tg.id == v.value.id for tg in x.targets) and isinstance(x.value, ast.Call)
+                    for x in body_walk(f.node)):
+            # a field of a helper object built in the funnel (`update = CacheUpdate(pobj, value, err)` ... `update.err`): decided there, not here
+            ctx.undecided(f'{f.qualname}:stored error is a SECoP error', s, f'`{src(s)}`: the error is a field of a helper object of the funnel', f)
+            continue
         if not isinstance(v, ast.Name):
             ok = isinstance(v, ast.Call) and dotted(v.func) == 'secop_error'
             ctx.check(ok, f'{f.qualname}:stored error is a SECoP error', s, 'secop_error(...)', f'`{src(s)}` stores an unconverted error', f)
@@ -567,3 +573,12 @@ def activated_connection_stays_activated(ctx):
     whole node: a `deactivate <module>` must not end the general activation (the stream would stop following the cache)"""
     from sa.rules import c08
     c08.a_scoped_deactivate_leaves_the_general_activation_alone(ctx)
+
+
+@rule('C05.R12', min_instances=2)
+def a_lost_frame_ends_the_connection(ctx):
+    """shared with C08.R8: every handler around the socket send in send_reply (tcp and websocket) ends the connection - a
+    handler that only logs loses that update while the connection stays activated, and replaying what the client received
+    no longer reproduces the cache (a recovery from an error is then never announced to it)"""
+    from sa.rules import c08
+    c08.a_message_is_delivered_or_the_connection_dropped(ctx)
